@@ -34,7 +34,11 @@ func (c c06Case) String() string {
 	return fmt.Sprintf("protocol=%s resolver=%s history=[%s]", c.Protocol, c.Resolver, strings.Join(c.Ops, " "))
 }
 
-var c06Alphabet = []string{"push", "pull", "pushpull", "editA", "editP", "delA", "delP"}
+var c06Alphabet = []string{"push", "pull", "pushpull", "editA", "editP", "delA", "delP", "editPbad", "acceptA"}
+
+// the active peer's sync function refuses documents marked bad until acceptA replaces it
+const c06RejectingSyncFn = `function(doc) { channel(doc.channels); if (doc.bad) { throw({forbidden: "bad"}); } }`
+const c06AcceptingSyncFn = `function(doc) { channel(doc.channels); }`
 
 type c06State struct {
 	Exists  bool
@@ -84,10 +88,15 @@ type c06World struct {
 	n       int
 }
 
-func (w *c06World) edit(rt *RestTester, side string) bool {
+func (w *c06World) edit(rt *RestTester, side string) bool { return w.editBody(rt, side, false) }
+
+func (w *c06World) editBody(rt *RestTester, side string, bad bool) bool {
 	st := c06Read(rt, w.doc)
 	w.n++
 	body := fmt.Sprintf(`{"by":"%s","n":%d,"channels":["alice"]}`, side, w.n)
+	if bad {
+		body = fmt.Sprintf(`{"by":"%s","n":%d,"bad":true,"channels":["alice"]}`, side, w.n)
+	}
 	url := "/{{.keyspace}}/" + w.doc
 	if st.Exists {
 		url += "?rev=" + st.RevTree
@@ -190,6 +199,20 @@ func c06RootCause(a, p c06State) string {
 func c06History(t testing.TB, r *vreport.Report, c c06Case, peers TestISGRPeers, docID string) (valid bool) {
 	w := &c06World{t: t, c: c, doc: docID, active: peers.ActiveRT, passive: peers.PassiveRT, url: peers.PassiveDBURL}
 	tag := c.Protocol + "/" + c.Resolver
+	setSync := func(fn string) {
+		coll, cctx := w.active.GetSingleTestDatabaseCollectionWithUser()
+		if _, err := coll.UpdateSyncFun(cctx, fn); err != nil {
+			t.Fatalf("sync function: %v", err)
+		}
+	}
+	setSync(c06RejectingSyncFn) // peers are shared by several histories: every history starts with the refusing function
+	accepts := false
+	perDirectionFirst := false
+	for _, op := range c.Ops {
+		if op == "acceptA" {
+			perDirectionFirst = true
+		}
+	}
 	for i, op := range c.Ops {
 		ok := true
 		switch op {
@@ -201,6 +224,11 @@ func c06History(t testing.TB, r *vreport.Report, c c06Case, peers TestISGRPeers,
 			ok = w.del(w.active, "A")
 		case "delP":
 			ok = w.del(w.passive, "P")
+		case "editPbad":
+			ok = w.editBody(w.passive, "P", true)
+		case "acceptA":
+			setSync(c06AcceptingSyncFn)
+			accepts = true
 		default:
 			res := w.replicate(op)
 			if !res.Stopped {
@@ -210,6 +238,37 @@ func c06History(t testing.TB, r *vreport.Report, c c06Case, peers TestISGRPeers,
 		}
 		if !ok {
 			return false
+		}
+	}
+	// a document the active peer's sync function still refuses legitimately stays on the passive side only
+	refused := func() bool {
+		p := c06Read(w.passive, docID)
+		return !accepts && strings.Contains(p.Body, `"bad":true`)
+	}
+	if perDirectionFirst {
+		// catch up with the per-direction replications first: they resume from the checkpoints they persisted during the
+		// history, so a checkpoint that ran ahead of a refused revision shows as a document that never arrives
+		for round := 0; round < 5; round++ {
+			moved := false
+			for _, dir := range []string{"pull", "push"} {
+				a0, p0 := c06Read(w.active, docID), c06Read(w.passive, docID)
+				res := w.replicate(dir)
+				if !res.Stopped {
+					r.Violate("C06/replication-did-not-complete/"+tag+"/catch-up-"+dir, fmt.Sprintf("catch-up %s did not reach stopped within 60 s: %q; %s", dir, res.Err, c), c)
+					return true
+				}
+				if res.Pushed != 0 || res.Pulled != 0 || a0 != c06Read(w.active, docID) || p0 != c06Read(w.passive, docID) {
+					moved = true
+				}
+			}
+			if !moved {
+				break
+			}
+		}
+		a, p := c06Read(w.active, docID), c06Read(w.passive, docID)
+		if !refused() && (a.Exists != p.Exists || a.Deleted != p.Deleted || a.Body != p.Body) {
+			r.Violate("C06/diverged-after-per-direction-catch-up/"+tag+"/"+strings.Join(c.Ops, ","), fmt.Sprintf("after pull and push (resuming from their checkpoints) transfer nothing more: active=%+v passive=%+v; %s", a, p, c), c)
+			return true
 		}
 	}
 	// catch up: push-and-pull until a run transfers nothing
@@ -242,6 +301,10 @@ func c06History(t testing.TB, r *vreport.Report, c c06Case, peers TestISGRPeers,
 	}
 	if !a.Exists && !p.Exists {
 		r.Distinct("outcomes", "absent")
+		return true
+	}
+	if refused() {
+		r.Add("histories_ending_with_a_refused_document", 1)
 		return true
 	}
 	var diffs []string
@@ -295,13 +358,14 @@ func c06Peers(t *testing.T, protocol string) TestISGRPeers {
 	if protocol == "v4" {
 		protocols = []string{db.CBMobileReplicationV4.SubprotocolString()}
 	}
-	return SetupISGRPeersWithOpts(t, TestISGRPeerOpts{ActivePeerSupportedBLIPSubProtocols: protocols})
+	return SetupISGRPeersWithOpts(t, TestISGRPeerOpts{ActivePeerSupportedBLIPSubProtocols: protocols,
+		ActiveRestTesterConfig: &RestTesterConfig{DatabaseConfig: &DatabaseConfig{DbConfig: DbConfig{Name: "activedb"}}, SgReplicateEnabled: true, SyncFn: c06RejectingSyncFn}})
 }
 
 func TestVerifC06(t *testing.T) {
 	r := vreport.Begin("C06")
 	defer r.Finish(t)
-	r.Rule("histories over {push, pull, pushpull (one-shot, run to completion, one replication id per direction so later runs restart from the checkpoint), editA, editP, delA, delP} (edit on a tombstone = resurrection) on one document, depth <= D, x protocol {rev-tree v3, version-vector v4} x resolver; histories whose delete has no live document are pruned; a pair of peers serves up to 40 histories, each on its own document, so most histories also start from non-initial replication checkpoints; non-trivial = distinct valid (history, protocol, resolver)")
+	r.Rule("histories over {push, pull, pushpull (one-shot, run to completion, one replication id per direction so later runs restart from the checkpoint), editA, editP, delA, delP, editPbad (an edit the active peer's sync function refuses), acceptA (the active peer starts accepting)} (edit on a tombstone = resurrection) on one document, depth <= D, x protocol {rev-tree v3, version-vector v4} x resolver; histories whose delete has no live document are pruned; a pair of peers serves up to 40 histories, each on its own document, so most histories also start from non-initial replication checkpoints; non-trivial = distinct valid (history, protocol, resolver)")
 	r.Assume("local writes interleave with replication at operation granularity only: scheduling inside one replication run (BLIP goroutines, sockets; the push and the pull half of a push-and-pull run) is left to the Go runtime, so intra-run races are met as they happen, not enumerated; the replicating-client (Couchbase Lite) side of the statement is represented by the passive peer only")
 	var rc c06Case
 	if r.Replaying(&rc) {
